@@ -76,6 +76,9 @@ type validator struct {
 type world struct {
 	vals       []*validator
 	accts      []signature.Signer // staking accounts that submit transactions
+	signers    []signature.Signer // accts, then the node keys of the validators (each node's OWN transaction signer)
+	oracleID   *identity.Identity // identity of the oracle node: nobody's validator, signs no transactions
+	minGas     uint64             // consensus parameter MinGasPrice
 	doc        *genesis.Document
 	docJSON    []byte
 	chainCtx   string
@@ -122,6 +125,20 @@ func newWorld(backend string, interval int64, tie bool) (*world, error) {
 	for i := 1; i <= numAccounts; i++ {
 		w.accts = append(w.accts, testSigner(fmt.Sprintf("verif c01 account %d", i)))
 	}
+	w.signers = append(w.signers, w.accts...)
+	for _, v := range w.vals {
+		w.signers = append(w.signers, v.id.NodeSigner)
+	}
+	w.oracleID = &identity.Identity{
+		NodeSigner:      testSigner("verif c01 oracle node"),
+		P2PSigner:       testSigner("verif c01 oracle p2p"),
+		ConsensusSigner: testSigner("verif c01 oracle consensus"),
+		VRFSigner:       testSigner("verif c01 oracle vrf"),
+		TLSSigner:       testSigner("verif c01 oracle tls"),
+	}
+	if !tie {
+		w.minGas = 1
+	}
 	doc, err := w.makeGenesis()
 	if err != nil {
 		return nil, err
@@ -137,6 +154,13 @@ func newWorld(backend string, interval int64, tie bool) (*world, error) {
 }
 
 func q(n uint64) quantity.Quantity { return *quantity.NewFromUint64(n) }
+
+func (w *world) tieSuffix() string {
+	if w.tie {
+		return " tie"
+	}
+	return ""
+}
 
 // tieZero: rewards that would break the engineered stake tie are switched off in tie mode.
 func (w *world) tieZero(n uint64) uint64 {
@@ -172,6 +196,10 @@ func (w *world) makeGenesis() (*genesis.Document, error) {
 	}
 	for i, s := range w.accts {
 		add(staking.NewAddress(s.Public()), 5_000_000+uint64(i)*1000, 0)
+	}
+	// the validators' node keys are transaction signers too (a node's own transactions)
+	for _, v := range w.vals {
+		add(staking.NewAddress(v.id.NodeSigner.Public()), 1_000_000, 0)
 	}
 	// account 1 also delegates to validator entity 1 and 2
 	a1 := staking.NewAddress(w.accts[0].Public())
@@ -244,6 +272,7 @@ func (w *world) makeGenesis() (*genesis.Document, error) {
 				MaxBlockSize:      21 * 1024 * 1024,
 				MaxEvidenceSize:   1024 * 1024,
 				MaxTxSize:         32 * 1024,
+				MinGasPrice:       w.minGas,
 				GasCosts:          transaction.Costs{consensusGenesis.GasOpTxByte: 1},
 			},
 		},
@@ -335,10 +364,23 @@ type replica struct {
 	mux    types.Application
 	cancel context.CancelFunc
 	prune  abci.PruneConfig
+	// localMinGas is the node-local minimum gas price (configuration, CheckTx only)
+	localMinGas uint64
+}
+
+// identity: replica i runs with validator i's identity; self = 0 is the oracle's neutral identity.
+func (r *replica) identity() *identity.Identity {
+	if r.self == 0 {
+		return r.w.oracleID
+	}
+	return r.w.vals[r.self-1].id
 }
 
 func (w *world) openReplica(name string, self int, dir string, prune abci.PruneConfig) (*replica, error) {
 	r := &replica{w: w, name: name, self: self, dir: dir, prune: prune}
+	if self > 0 {
+		r.localMinGas = uint64(self-1) * 2 // every node its own local configuration
+	}
 	if err := r.open(); err != nil {
 		return nil, err
 	}
@@ -351,7 +393,8 @@ func (r *replica) open() error {
 		DataDir:             r.dir,
 		StorageBackend:      r.w.backend,
 		Pruning:             r.prune,
-		Identity:            r.w.vals[r.self-1].id,
+		Identity:            r.identity(),
+		MinGasPrice:         r.localMinGas,
 		DisableCheckpointer: true,
 		InitialHeight:       r.w.doc.Height,
 		ChainContext:        r.w.chainCtx,
